@@ -275,7 +275,8 @@ class BaseObserver(EventDispatcher):
         # Hold the lock so that a concurrent schedule() either sees its emitter
         # started here or finds the observer alive and starts it itself.
         with self._lock:
-            for emitter in self._emitters.copy():
+            # Once stop() was requested nobody would stop the emitters again.
+            for emitter in self._emitters.copy() if self.should_keep_running() else ():
                 try:
                     emitter.start()
                 except Exception:
